@@ -149,6 +149,7 @@ def check_call(contract, args, kwargs, tol=None):
     try:
         wa = contract.bind(tuple(wrap(a) for a in args), {k: wrap(v) for k, v in kwargs.items()})
         out.bound = wa
+        wa_old = wa
         c.in_spec += 1
         try:
             req, _ = S.evaluate(contract.requires(wa))
@@ -190,6 +191,7 @@ def check_call(contract, args, kwargs, tol=None):
         # post-state view of the arguments (out-parameters) with identities preserved
         _WRAP_MEMO.clear()
         wa = contract.bind(tuple(wrap(a) for a in args), {k: wrap(v) for k, v in kwargs.items()})
+        wa.old = wa_old
         c.in_spec += 1
         post = contract.ensures(wa, wrap(result))
         for name, f in post.items():
